@@ -28,6 +28,13 @@ class LoopMixin(object):
                     and not any(isinstance(n, (ast.Break, ast.Continue))
                                 for n in ast.walk(node)):
                 return self.unroll(node, s, frame, it[1])
+            if it[0] == "tuple" and 0 < len(it[1]) <= 6 and \
+                    all(x[0] == "tuple" and x[1] and is_const(x[1][0]) and
+                        isinstance(x[1][0][1], str) for x in it[1]) \
+                    and not any(isinstance(n, (ast.Break, ast.Continue))
+                                for n in ast.walk(node)):
+                # a display of (SQL text, parameters) pairs run by a helper
+                return self.unroll(node, s, frame, it[1])
             return self.run_loop(node, s, frame, it)
         return self._each(node.iter, state, frame, go)
 
